@@ -421,7 +421,7 @@ class Interp:
                 return self.call(g, actual[1:], this=this)
             return self.invoke(f, st, target, actual)
         if fn[0] == 'method':
-            stat = [g for g in self.prog.by_usr.get(fn[1], ()) if g.body is not None and g.d.get('static')]
+            stat = [g for g in self.prog.by_usr.get(fn[1], ()) if g.body is not None and (g.d.get('static') or (fn[1] or '').endswith('#S'))]     # the USR of a static member function ends in #S
             if stat:
                 return self.call(stat[0], list(args)[:len(stat[0].params)])      # a static member function: a plain function
             this = self.record_of(args[0])
@@ -913,6 +913,8 @@ class Interp:
         v = self.ev(f, e, env)
         if isinstance(v, P):
             return True
+        if self.is_callable(v):
+            return True             # a non-null pointer to function / a non-empty std::function
         if not isinstance(v, int):
             if self.faults:
                 raise _Abort()
@@ -1083,7 +1085,7 @@ class Interp:
                 return self.read(f, st, self.lv(f, st['ch'][0], env), env)
             v = self.ev(f, st['ch'][0], env)
             if ck in ('IntegralToBoolean', 'PointerToBoolean'):
-                if isinstance(v, P):
+                if isinstance(v, P) or self.is_callable(v):
                     return 1
                 return int(v != 0) if isinstance(v, int) else None
             if ck in ('IntegralCast',) or (ck in ('NoOp', None) and isinstance(v, int) and '*' not in (st.get('ct') or st.get('t') or '')):
